@@ -5,7 +5,9 @@
     int: unbounded [Z]; [//] floors, [%] takes the sign of the divisor ([Z.div] / [Z.modulo] are exactly these);
     [/] on two ints is the correctly rounded quotient (one rounding of the exact value); a float operand promotes
     the other operand by int -> float (round to nearest even); comparisons between int and float are exact;
-    zero divisors raise.  [**] with a float operand or a negative int exponent is libm pow: [PyUnmodelled]. *)
+    a zero divisor (the int 0 or a float zero) raises.  [**] with a float operand or a negative int exponent is
+    libm pow: [PyUnmodelled].  int -> float conversion raises OverflowError beyond 2^1024; that is outside the
+    machine ranges considered here and not represented. *)
 From Coq Require Import ZArith List Bool.
 From Coq Require Import Floats.SpecFloat.
 From ErgV Require Import ConstEval.Model.
@@ -104,6 +106,8 @@ Definition py_float_divmod (l r : spec_float) : spec_float * spec_float :=
   (q, m).
 
 Definition float_is_zero (f : spec_float) : bool := match f with S754_zero _ => true | _ => false end.
+(** "division by zero": the divisor, before promotion, is the int 0 or a float zero *)
+Definition num_is_zero (n : num) : bool := match n with NI z => z =? 0 | NF f => float_is_zero f end.
 
 Definition py_arith (op : binop) (a b : num) : pyres :=
   match a, b with
@@ -126,9 +130,9 @@ Definition py_arith (op : binop) (a b : num) : pyres :=
     | OAdd => PyOk (PFloat (F_add f g))
     | OSub => PyOk (PFloat (F_sub f g))
     | OMul => PyOk (PFloat (F_mul f g))
-    | ODiv => if float_is_zero g then PyRaise ZeroDivisionError else PyOk (PFloat (F_div f g))
-    | OFloorDiv => if float_is_zero g then PyRaise ZeroDivisionError else PyOk (PFloat (fst (py_float_divmod f g)))
-    | OMod => if float_is_zero g then PyRaise ZeroDivisionError else PyOk (PFloat (snd (py_float_divmod f g)))
+    | ODiv => if num_is_zero b then PyRaise ZeroDivisionError else PyOk (PFloat (F_div f g))
+    | OFloorDiv => if num_is_zero b then PyRaise ZeroDivisionError else PyOk (PFloat (fst (py_float_divmod f g)))
+    | OMod => if num_is_zero b then PyRaise ZeroDivisionError else PyOk (PFloat (snd (py_float_divmod f g)))
     | OPow => PyUnmodelled
     | _ => PyRaise TypeError
     end
@@ -226,6 +230,21 @@ Definition judge_un (op : unop) (a : value) (r : res (option value)) : Z :=
                 | PyRaise e => XRaise e
                 | PyUnmodelled => XUnmodelled
                 end).
+
+(** * the part of the domain on which agreement is proved in Coq (Props_C04.v); the rest of the float cases
+      is carried by the correspondence check only.
+      integer/bool fragment: no Float operand and the operator is not [/] (whose result is a Float);
+      float fragment: [+ - * / // %] with at least one Float operand, comparisons of two Floats. *)
+Definition is_int_like (v : value) : bool := match v with VInt _ | VNat _ | VBool _ => true | _ => false end.
+Definition is_vfloat (v : value) : bool := match v with VFloat _ => true | _ => false end.
+Definition int_fragment (op : binop) (a b : value) : bool :=
+  is_int_like a && is_int_like b && match op with ODiv => false | _ => true end.
+Definition float_fragment (op : binop) (a b : value) : bool :=
+  match op with
+  | OAdd | OSub | OMul | ODiv | OFloorDiv | OMod => is_vfloat a || is_vfloat b
+  | OGt | OGe | OLt | OLe | OEq | ONe => is_vfloat a && is_vfloat b
+  | _ => false
+  end.
 
 (** * the class of inputs on which the evaluator is known not to be covered (known finding C04-float-pow):
       [**] with a Float operand is folded with libm powf/powi *)
